@@ -80,6 +80,7 @@ func caseGen() *rapid.Generator[Case] {
 				st.Ref = rapid.IntRange(0, 7).Draw(t, "ref")
 				st.Col = rapid.IntRange(0, 7).Draw(t, "dst")
 				st.Target = rapid.IntRange(0, 3).Draw(t, "cell")
+				st.N = rapid.IntRange(0, 1).Draw(t, "then-register-on-both")
 			case "seedcell":
 				st.Ref = rapid.IntRange(0, 7).Draw(t, "ref")
 				st.Col = rapid.IntRange(0, 7).Draw(t, "ref2")
